@@ -211,6 +211,8 @@ pub struct RecRng {
   pub inner: Sm,
   pub words: Vec<u64>,
   pub zero_next: usize,
+  /// word positions (counted from the first word handed out) that are forced to zero
+  pub zero_at: Vec<usize>,
 }
 impl rand_core::RngCore for RecRng {
   fn next_u32(&mut self) -> u32 {
@@ -219,6 +221,9 @@ impl rand_core::RngCore for RecRng {
   fn next_u64(&mut self) -> u64 {
     let w = if self.zero_next > 0 {
       self.zero_next -= 1;
+      0
+    } else if self.zero_at.contains(&self.words.len()) {
+      self.inner.next();
       0
     } else {
       self.inner.next()
@@ -278,7 +283,20 @@ pub fn c06(tier: &str, seed: u64) {
     }
     let extra = *g.pick(&[0usize, 0, 5, 23]);
     secret.extend(g.bytes(extra));
-    let mut rng = RecRng { inner: Sm(g.next()), words: vec![], zero_next: 0 };
+    // now and then one coefficient draw IS the zero element: the leading coefficient of the first
+    // polynomial, of a later one, or any other - the dealt polynomial must carry it as drawn
+    let mut zero_at = Vec::new();
+    if t >= 2 && k >= 1 && g.chance(1, 3) {
+      let per = t as usize - 1;
+      let d = match g.below(3) {
+        0 => 0,
+        1 => per * g.below(k as u64) as usize,
+        _ => g.below((per * k) as u64) as usize,
+      };
+      zero_at = vec![3 * d, 3 * d + 1, 3 * d + 2];
+      stat("oracle.C06.zero_coefficient_draw");
+    }
+    let mut rng = RecRng { inner: Sm(g.next()), words: vec![], zero_next: 0, zero_at };
     let sharks = Sharks(t);
     let mut ev = match sharks.dealer_rng(&secret, &mut rng) {
       Ok(e) => e,
@@ -334,7 +352,7 @@ pub fn c06(tier: &str, seed: u64) {
       }
       shares.push(s);
     }
-    let mut grng = RecRng { inner: Sm(g.next()), words: vec![], zero_next: if g.chance(1, 3) { 3 * g.range(1, 8) as usize } else { 0 } };
+    let mut grng = RecRng { inner: Sm(g.next()), words: vec![], zero_next: if g.chance(1, 3) { 3 * g.range(1, 8) as usize } else { 0 }, zero_at: vec![] };
     let ngen = if t > 1000 { 1 } else { (t as usize + 2).saturating_sub(nnext).max(2) };
     for _ in 0..ngen {
       shares.push(ev.gen(&mut grng));
@@ -469,13 +487,13 @@ pub fn c06(tier: &str, seed: u64) {
   for d in 0..3u128 {
     let mut secret = le24(1, 0).to_vec();
     secret.extend(le24(12451 + d, 1));
-    let mut rng = RecRng { inner: Sm(1), words: vec![], zero_next: 0 };
+    let mut rng = RecRng { inner: Sm(1), words: vec![], zero_next: 0, zero_at: vec![] };
     if Sharks(3).dealer_rng(&secret, &mut rng).is_ok() {
       fail("dealer_accepted_out_of_range", &[("secret", hex(&secret))]);
     }
     case(true);
   }
-  let mut rng = RecRng { inner: Sm(5), words: vec![], zero_next: 0 };
+  let mut rng = RecRng { inner: Sm(5), words: vec![], zero_next: 0, zero_at: vec![] };
   let s0 = Sharks(0);
   let shares: Vec<Share> = s0.dealer_rng(&le24(7, 0), &mut rng).unwrap().take(3).collect();
   if s0.recover(&shares).is_ok() {
